@@ -24,7 +24,7 @@ SubsNum ==
                   IN Code(subs[c][x]) * (i * i + 3 * i + 1)]
   IN SumTo(cells, Len(ConnQ) * Len(ChanQ))
 
-H(s) == s * 7919 + n * 104729 + SubsNum * 1299709
+H(s) == s * 7919 + n * 104729 + SubsNum * 104723   \* stays below 2^31
 Sel(q, h, d) == q[((h \div d) % Len(q)) + 1]
 
 UserQ    == <<"u", "u", "v", "", "">>
